@@ -277,7 +277,7 @@ def device(ulpi, full):
         from .w1_usb2_glue import device_register
         rs_path = "".join(n + "." for n in hier(ts, rs))
         epmux = ts.instance(USBEndpointMultiplexer)
-        address = device_register(ts, d, [ts.instance(USBTokenDetector).address, epmux.shared.active_address], "address")
+        address = device_register(ts, d, [epmux.shared.active_address, ts.instance(USBTokenDetector).address], "address")
         configuration = device_register(ts, d, [epmux.shared.active_config], "configuration")
         always_fs = 1 if d.always_fs else 0
         # (a) wiring
